@@ -212,9 +212,18 @@ def check_structured(cx, http, DS, rng, cfg):
         d = http.dump_age(a)
         rec.nontrivial(("age", repr(a)))
         cx.eq("age", a, d, http.parse_age(d), a if isinstance(a, timedelta) else timedelta(seconds=a))
+    # an entity tag whose text happens to be an HTTP date is still an entity tag (it is sent quoted)
+    tagtext = http.http_date(rng.randrange(0, 2**31))
+    with rec.guard({"pair": "if-range", "value": tagtext}, "C06"):
+        ir = DS.IfRange(etag=tagtext)
+        d = ir.to_header()
+        p = http.parse_if_range_header(d)
+        rec.nontrivial(("if-range-datelike", tagtext))
+        cx.eq("if-range", tagtext, d, (p.etag, p.date), (tagtext, None), "C06/if-range-etag")
     # csp
     DIR = ["default-src", "script-src", "img-src", "report-uri", "sandbox", "frame-ancestors", "style-src", "connect-src"]
     dmap = {k: rng.choice(["'self'", "'none'", "https://a.b 'unsafe-inline'", "data: blob:", "a,b", "x=y", "'nonce-abc=' *.x.y"]) for k in rng.sample(DIR, rng.randint(1, 4))}
+    # (directives without a value are outside the domain: parse_csp_header ignores them by design, tests/test_http.py::test_csp_header)
     with rec.guard({"pair": "csp", "value": dmap}, "C06"):
         c = DS.ContentSecurityPolicy(dmap)
         d = c.to_header()
